@@ -1,9 +1,10 @@
 import Martian.ShellQuote
+import Martian.JobTemplate
 import Gen.Facts
 import Driver.Util
 
 namespace Driver.C18
-open Martian.ShellQuote Driver
+open Martian.ShellQuote Martian.JobTemplate Driver
 
 def parsePairs (s : String) : Option (List (List UInt8 × List UInt8)) :=
   if s == "." then some [] else
@@ -11,6 +12,35 @@ def parsePairs (s : String) : Option (List (List UInt8 × List UInt8)) :=
     match kv.splitOn "=" with
     | [k, v] => do let k ← bytesOfHex k; let v ← bytesOfHex v; pure (k, v)
     | _ => none
+
+def tokStr : Tok → String
+  | .word v a => "w:" ++ hexOfBytes v ++ ":" ++ (if a then "1" else "0")
+  | .special v => "s:" ++ hexOfBytes v
+  | .op o => "o:" ++ hexOfBytes o
+  | .nl => "n"
+
+def toksStr : Option (List Tok) → String
+  | some ts => "some " ++ (if ts.isEmpty then "." else ",".intercalate (ts.map tokStr))
+  | none => "none"
+
+def parseNats (s : String) : Option (List Nat) := (s.splitOn ",").mapM String.toNat?
+
+/-- fields: tmpl fqname shellName stdout stderr workdir threadEnvs envs cmd argv
+nums(threads,mem,vmem,threadsPerJob,memPerJob,extraVmem,memPerCore,alwaysVmem) account special mappings resOpt -/
+def parseJob : List String → Option JobIn
+  | [tmpl, fq, sh, so, se, wd, tenv, envs, cmd, argv, nums, acct, spec, maps, ro] => do
+    let ns ← parseNats nums
+    match ns with
+    | [t, m, v, tpj, mpj, ex, mpc, av] =>
+      pure { tmpl := ← bytesOfHex tmpl, fqname := ← bytesOfHex fq, shellName := ← bytesOfHex sh,
+             stdout := ← bytesOfHex so, stderr := ← bytesOfHex se, workdir := ← bytesOfHex wd,
+             threadEnvs := ← parseHexList tenv, envs := ← parsePairs envs, cmd := ← bytesOfHex cmd,
+             argv := ← parseHexList argv, threads := t, memGB := m, vmemGB := v, threadsPerJob := tpj,
+             memGBPerJob := mpj, extraVmemGB := ex, memGBPerCore := mpc, alwaysVmem := av != 0,
+             account := ← bytesOfHex acct, special := ← bytesOfHex spec, mappings := ← parsePairs maps,
+             resOpt := ← bytesOfHex ro }
+    | _ => none
+  | _ => none
 
 def handle (op : String) (args : List String) : Option String :=
   match op, args with
@@ -33,6 +63,25 @@ def handle (op : String) (args : List String) : Option String :=
     let cmd ← bytesOfHex cmd
     let argv ← parseHexList argv
     pure (hexOfBytes (formatArgs Gen.shellEscapes envs cmd argv))
+  | "toks", [s] => do
+    let b ← bytesOfHex s
+    pure (toksStr (shToks b))
+  | "jobscript", args => do
+    let j ← parseJob args
+    pure (hexOfBytes (jobScript Gen.shellEscapes j))
+  -- shipped template by name: the template text the segments stand for, the
+  -- segment-level rendering, the byte-level rendering of that text, the tokens
+  -- the theorems promise, and whether every line has a covered shape
+  | "render", name :: args => do
+    let ls ← Gen.jobTemplates.lookup name
+    let j0 ← parseJob (("-" : String) :: args)
+    let j := { j0 with tmpl := templateText ls }
+    let ps := params Gen.shellEscapes j
+    let covered := ls.all fun l => shapeOf l != Shape.other
+    pure (hexOfBytes j.tmpl ++ " " ++ hexOfBytes (renderScript (valsOf ps) ls) ++ " "
+      ++ hexOfBytes (jobScript Gen.shellEscapes j) ++ " " ++ boolStr covered ++ " "
+      ++ toksStr (some (expectedToks (givenOf Gen.shellEscapes j) ls)))
+  | "templates", [] => pure (",".intercalate (Gen.jobTemplates.map (·.1)))
   | _, _ => none
 
 end Driver.C18
